@@ -83,4 +83,16 @@ TEXT = {
     level_text="Fault-point enumeration by generation: every (fault kind x in-flight operation kind) cell is required to be covered in the thorough tier; release accounting and the fid table are observed directly after shutdown.",
     level_note="Trusted: memconn fault injection, mockfs release accounting, VerifFidTable. Termination is tested as 'within 10 s', not proved.",
  ),
+ "C05": dict(
+    technique="property-based testing (rapid) of the client transport against a scripted server that controls reply order; tag-wrap histories (>65535 requests); allocateTag law through a hook; Go race detector",
+    design_ref="DESIGN.md section 4, C05",
+    level_text="Generated call/reply/abandon schedules with the reply permutation fully controlled by the harness; tag uniqueness is checked by the server on every arrival, result attribution by markers.",
+    level_note="Trusted: refwire, scripted server, VerifAllocateTag wrapper. Interleavings inside the transport are those the scheduler produces under the controlled reply orders.",
+ ),
+ "C12": dict(
+    technique="fault-injection property testing (rapid): generated scripts of hostile replies, malformed frames, cancellations and connection failures against the real CSession; process crashes recovered from the case journal; Go race detector",
+    design_ref="DESIGN.md section 4, C12",
+    level_text="Generated misbehaviour scripts with 0..n calls pending; liveness is tested as 'returns within 10 s'; crash-freedom by surviving the script (the driver turns a dead child into a replayable violation).",
+    level_note="Trusted: memconn fault injection, refwire. Both 'ignore' and 'give up on the session' are accepted reactions to a stray or malformed frame.",
+ ),
 }
